@@ -5,6 +5,7 @@ import (
 	"go/constant"
 	"go/token"
 	"go/types"
+	"regexp"
 	"sort"
 	"strings"
 
@@ -412,7 +413,12 @@ func shortQual(p *types.Package) string {
 }
 
 // TypeStr renders a type with short package qualifiers.
-func TypeStr(t types.Type) string { return types.TypeString(t, shortQual) }
+func TypeStr(t types.Type) string {
+	return anyRe.ReplaceAllString(types.TypeString(t, shortQual), "interface{}")
+}
+
+// `any` is an alias of interface{}: sources that spell it either way render alike
+var anyRe = regexp.MustCompile(`\bany\b`)
 
 // StructOf returns the struct type behind t (through pointers and names), with
 // the named type if any.
@@ -1018,6 +1024,10 @@ func (p *Prog) freshRef(v ssa.Value, d int, seen map[ssa.Value]bool) bool {
 		n := CalleeName(x.Common())
 		if n == "builtin.append" {
 			return p.freshRef(x.Common().Args[0], d+1, seen)
+		}
+		// library copies: a new backing array / a new map (shallow: the elements are the same values)
+		if pk, fn := StdCallee(x.Common().StaticCallee()); (pk == "slices" && (fn == "Clone" || fn == "Concat")) || (pk == "maps" && fn == "Clone") {
+			return true
 		}
 		return p.freshResult(x.Common(), 0, d, seen)
 	case *ssa.Extract:
@@ -1783,4 +1793,23 @@ func SetInsert(mu *ssa.MapUpdate) bool {
 		}
 	}
 	return true
+}
+
+// StdCallee names a callee from the standard library by package path and
+// function name; an instantiation of a generic function (slices.Reverse[[]T,T])
+// is named after the generic function.
+func StdCallee(f *ssa.Function) (pkg, name string) {
+	if f == nil {
+		return "", ""
+	}
+	if o := f.Origin(); o != nil {
+		f = o
+	}
+	if f.Pkg == nil || f.Pkg.Pkg == nil {
+		if f.Object() != nil && f.Object().Pkg() != nil {
+			return f.Object().Pkg().Path(), f.Object().Name()
+		}
+		return "", ""
+	}
+	return f.Pkg.Pkg.Path(), f.Name()
 }
